@@ -150,30 +150,31 @@ Qed.
 
 Lemma apply_first_perfect o p f s h hs :
   loc_perfect (locate_for p f h (ignore_whitespace o) (a_offerr s) (max_fuzz o) (a_ln s)) = true ->
-  apply_first o p f s (h :: hs) = apply_rest o p f 0 s (h :: hs).
+  apply_first o p f s (h :: hs) = with_patch p (apply_rest o p f 0 s (h :: hs)).
 Proof.
   intros H. cbn [apply_first apply_rest]. unfold should_check_if_patch_is_reversed. rewrite H. reflexivity.
 Qed.
 
 Definition effective (o : options) (p : patch) : patch := if reverse_patch_opt o then reverse_patch p else p.
 
-Theorem apply_conforming_gen o p A B :
+Lemma apply_conforming_gen_full o p A B :
   define_macro o = [] -> verbose o = false -> (0 <= max_fuzz o)%Z ->
   Conforming A B (hunks (effective o p)) -> (Z.of_nat (length A) < MAXZ)%Z ->
   creation_guard (effective o p) A ->
   exists r, apply_patch o A p = Ok r /\ r_out r = B /\ r_failed r = 0 /\ r_rej r = [] /\
-            r_skipped r = false /\ r_perfect r = true /\ r_msgs r = [].
+            r_skipped r = false /\ r_perfect r = true /\ r_msgs r = [] /\
+            exists hs', r_patch r = set_hunks (effective o p) hs'.
 Proof.
   intros Hd Hv HF HC Hmax Hk. unfold apply_patch. fold (effective o p). fold init_state.
   set (p1 := effective o p) in *.
-  assert (Hrest : exists s', apply_first o p1 A init_state (hunks p1) = Ok s' /\
+  assert (Hrest : exists s', apply_first o p1 A init_state (hunks p1) = Ok (s', p1) /\
              a_out s' ++ skipn (a_ln s') A = B /\ a_rejected s' = 0 /\ a_rej s' = [] /\ a_skip s' = false /\
              a_perfect s' = true /\ a_msgs s' = []).
   { destruct (apply_rest_conf o p1 Hd Hv HF (hunks p1) 0 0 A B [] init_state 0 A HC eq_refl eq_refl Hmax Hk eq_refl eq_refl eq_refl)
       as (s' & Es & Ho & H1 & H2 & H3 & H4 & H5).
     exists s'. split; [|cbn in *; repeat split; assumption].
-    destruct (hunks p1) as [|h hs] eqn:Eh; [exact Es|].
-    rewrite apply_first_perfect; [exact Es|].
+    destruct (hunks p1) as [|h hs] eqn:Eh; [cbn in Es |- *; congruence|].
+    rewrite apply_first_perfect; [unfold with_patch; rewrite Es; reflexivity|].
     unfold Conforming in HC. inversion HC as [|a0 b0 gap h0 hs0 A0 B0 Hb Hoc Hnc Hos Hns HC' Ea Eb]; subst.
     cbn [a_offerr a_ln init_state]. rewrite (locate_for_guard p1 _ h _ _ _ _ Hk).
     rewrite (locate_conf (ignore_whitespace o) (max_fuzz o) 0 (gap ++ old_side (body h) ++ A0) gap A0 h eq_refl Hb Hoc Hos).
@@ -182,8 +183,22 @@ Proof.
     - exact HF.
     - exact Hmax. }
   destruct Hrest as (s' & Es & Ho & H1 & H2 & H3 & H4 & H5). rewrite Es. cbn [rbind].
-  eexists. split; [reflexivity|]. cbn. repeat split; assumption.
+  eexists. split; [reflexivity|]. cbn [r_out r_failed r_rej r_skipped r_perfect r_msgs r_patch fst snd].
+  repeat split; try assumption. eexists. reflexivity.
 Qed.
+
+Theorem apply_conforming_gen o p A B :
+  define_macro o = [] -> verbose o = false -> (0 <= max_fuzz o)%Z ->
+  Conforming A B (hunks (effective o p)) -> (Z.of_nat (length A) < MAXZ)%Z ->
+  creation_guard (effective o p) A ->
+  exists r, apply_patch o A p = Ok r /\ r_out r = B /\ r_failed r = 0 /\ r_rej r = [] /\
+            r_skipped r = false /\ r_perfect r = true /\ r_msgs r = [].
+Proof.
+  intros Hd Hv HF HC Hmax Hk.
+  destruct (apply_conforming_gen_full o p A B Hd Hv HF HC Hmax Hk) as (r & H1 & H2 & H3 & H4 & H5 & H6 & H7 & _).
+  exists r. repeat split; assumption.
+Qed.
+
 
 (* C01, hunk level.  For every option record without -R, -D and --verbose (any -F >= 0, -l, -N/-t/-f,
    newline mode, reject format), conforming hunks applied to A give exactly B: every hunk at its stated
